@@ -2,7 +2,8 @@
 From FRP Require Export Model.NatHole gen.GenNatHole.
 
 Definition nh_today_opt : option nh_data :=
-  nh_resolve T2_translated nh_recommend_shape_ok nh_int_consts nh_str_consts nh_tables nh_mode_switch nh_mode_default nh_swaps.
+  nh_resolve T2_translated nh_recommend_shape_ok nh_int_consts nh_str_consts nh_tables nh_mode_switch nh_mode_default nh_swaps
+    (nh_resolve_timing nh_timeout_init nh_timeout_listen_guard nh_timeout_listen_add nh_vread_timeout nh_cread_timeout nh_staggers).
 
 Definition nh_today : nh_data := match nh_today_opt with Some d => d | None => nh_no_data end.
 
